@@ -12,19 +12,19 @@ open Gen (DExp)
 /-! ### Operation.haveQuery -/
 
 def hqLetsExpected : List String :=
-  ["cu := op.closestUnqueried()", "cuDist := cu.Id.Value.Distance(op.targetInt160)",
-   "farDist := op.closest.Farthest().ID.Int160().Distance(op.targetInt160)"]
+  ["$1 := op.closestUnqueried()", "$2 := $1.Id.Value.Distance(op.targetInt160)",
+   "$3 := op.closest.Farthest().ID.Int160().Distance(op.targetInt160)"]
 
 def hqCond (c : TravCfg) (s : Trav) : String → Option Bool
   | "op.unqueried.Len() == 0" => some s.unq.isEmpty
   | "!op.closest.Full()" => some (!KNN.full c.k s.closest)
-  | "!cu.Id.Ok" => some ((s.unq.head?.bind (·.id)).isNone)
+  | "!$1.Id.Ok" => some ((s.unq.head?.bind (·.id)).isNone)
   | _ => none
 
 def hqRet (c : TravCfg) (s : Trav) : String → Option Bool
   | "false" => some false
   | "true" => some true
-  | "cuDist.Cmp(farDist) <= 0" =>
+  | "$2.Cmp($3) <= 0" =>
     match s.unq.head?.bind (·.id), KNN.farthest s.closest with
     | some i, some far => some (Id.cmp (Id.distance i c.target) (Id.distance far.id c.target) != .gt)
     | _, _ => some false
@@ -43,7 +43,7 @@ theorem SourceTrees.haveQuery (c : TravCfg) (s : Trav) :
 
 /-- Negative check: `<= 0` changed to `< 0` in the final comparison. Unknown atom: no value whenever the
 closest set is full and the closest unqueried candidate has an ID. -/
-def treeHaveQueryMutLt : DExp := DExp.ite "op.unqueried.Len() == 0" (DExp.ret "false") (DExp.ite "!op.closest.Full()" (DExp.ret "true") (DExp.ite "!cu.Id.Ok" (DExp.ret "false") (DExp.ret "cuDist.Cmp(farDist) < 0")))
+def treeHaveQueryMutLt : DExp := DExp.ite "op.unqueried.Len() == 0" (DExp.ret "false") (DExp.ite "!op.closest.Full()" (DExp.ret "true") (DExp.ite "!$1.Id.Ok" (DExp.ret "false") (DExp.ret "$2.Cmp($3) < 0")))
 
 theorem SourceTrees.haveQuery_mutLt_none (c : TravCfg) (s : Trav) (cu : Cand) (rest : List Cand) (i : Id)
     (hu : s.unq = cu :: rest) (hf : KNN.full c.k s.closest = true) (hi : cu.id = some i) :
@@ -58,14 +58,14 @@ example : ¬ ∀ (c : TravCfg) (s : Trav),
   exact absurd h' (by simp)
 
 /-- Negative check: the `Full` test without its negation. Unknown atom: no value for any non-empty frontier. -/
-def treeHaveQueryMutFull : DExp := DExp.ite "op.unqueried.Len() == 0" (DExp.ret "false") (DExp.ite "op.closest.Full()" (DExp.ret "true") (DExp.ite "!cu.Id.Ok" (DExp.ret "false") (DExp.ret "cuDist.Cmp(farDist) <= 0")))
+def treeHaveQueryMutFull : DExp := DExp.ite "op.unqueried.Len() == 0" (DExp.ret "false") (DExp.ite "op.closest.Full()" (DExp.ret "true") (DExp.ite "!$1.Id.Ok" (DExp.ret "false") (DExp.ret "$2.Cmp($3) <= 0")))
 
 example (c : TravCfg) (s : Trav) (cu : Cand) (rest : List Cand) (hu : s.unq = cu :: rest) :
     DExp.evalWith (hqCond c s) (hqRet c s) treeHaveQueryMutFull = none := by
   simp [treeHaveQueryMutFull, DExp.evalWith, hqCond, hu]
 
 /-- Negative check: a changed `let` (the distance of `cu` taken to something else) is seen by the first conjunct. -/
-example : ["cu := op.closestUnqueried()", "cuDist := cu.Id.Value.Distance(op.rootInt160)",
-   "farDist := op.closest.Farthest().ID.Int160().Distance(op.targetInt160)"] ≠ hqLetsExpected := by decide
+example : ["$1 := op.closestUnqueried()", "$2 := $1.Id.Value.Distance(op.rootInt160)",
+   "$3 := op.closest.Farthest().ID.Int160().Distance(op.targetInt160)"] ≠ hqLetsExpected := by decide
 
 end Dht
